@@ -4,6 +4,22 @@ Import ListNotations.
 From Glb Require Import Lib.NetIP Lib.CidrSet Model.Filter Proofs.FilterP Proofs.NetIPP.
 Open Scope N_scope.
 
+(** [run ops : option state] and [contains s ip : option bool] are the model's outcomes;
+    [None] is a Go run-time panic (index out of range, write to a nil map, short slice).
+
+    No call of any history panics — whatever the arguments, valid or not — and in the
+    state reached no further Add, Remove or Contains panics either: the guards keep every
+    index of [ipv4Masks], [ipList] and [ipMaps] in range, the migration reads only slots
+    with ones > 0, map entries are written only after the maps were made, and
+    [BigEndian.Uint32] only ever sees 4-byte slices. *)
+Theorem C11_no_panic : forall ops,
+  exists s, run ops = Some s
+            /\ (forall c, exists s' r, add s c = Some (s', r))
+            /\ (forall c, exists s' r, remove s c = Some (s', r))
+            /\ (forall ip, exists b, contains s ip = Some b).
+Proof. exact no_panic. Qed.
+Print Assumptions C11_no_panic.
+
 (** For every history [ops] of Add/Remove calls (any length, any arguments, valid or
     not, so in particular histories that cross the switch from the 256-slot list to the
     per-prefix-length maps with zeroed slots before, at and after it) and every probe
@@ -12,31 +28,33 @@ Open Scope N_scope.
     since", [live_set] the other ranges; a probe that is not an IPv4 address (neither 4
     bytes nor a 16-byte IPv4-mapped address) is inside 0.0.0.0/0 only. *)
 Theorem C11_membership : forall ops ip,
-  contains (run ops) ip =
+  exists s, run ops = Some s /\
+  contains s ip = Some
   match to4 ip with
   | Some b => match_all_live ops || existsb (fun k => covers k (be32 b)) (live_set ops)
   | None => match_all_live ops
   end.
-Proof. exact membership. Qed.
+Proof. exact membership_p. Qed.
 Print Assumptions C11_membership.
 
 (** the 4-byte and the 16-byte (net.IP.To16 / net.ParseIP) form of an address get the same answer *)
 Theorem C11_both_forms : forall ops a b c d,
   let r := match_all_live ops || existsb (fun k => covers k (be32 [a; b; c; d])) (live_set ops) in
-  contains (run ops) [a; b; c; d] = r /\ contains (run ops) (v4mapped [a; b; c; d]) = r.
-Proof. exact membership_v4. Qed.
+  exists s, run ops = Some s /\ contains s [a; b; c; d] = Some r /\ contains s (v4mapped [a; b; c; d]) = Some r.
+Proof. exact membership_v4_p. Qed.
 Print Assumptions C11_both_forms.
 
 (** arguments that are not IPv4 CIDRs are rejected and change nothing, in every state;
-    all others are accepted *)
+    all others are accepted (in every reachable state) *)
 Theorem C11_invalid_rejected : forall s c,
-  cidr_arg c = None -> add s c = (s, RErrInvalid) /\ remove s c = (s, RErrInvalid).
-Proof. exact invalid_rejected. Qed.
+  cidr_arg c = None -> add s c = Some (s, RErrInvalid) /\ remove s c = Some (s, RErrInvalid).
+Proof. exact invalid_rejected_p. Qed.
 Print Assumptions C11_invalid_rejected.
 
-Theorem C11_valid_accepted : forall s c,
-  cidr_arg c <> None -> snd (add s c) = ROk /\ snd (remove s c) = ROk.
-Proof. exact valid_accepted. Qed.
+Theorem C11_valid_accepted : forall ops s c,
+  run ops = Some s -> cidr_arg c <> None ->
+  (exists s', add s c = Some (s', ROk)) /\ (exists s', remove s c = Some (s', ROk)).
+Proof. exact valid_accepted_p. Qed.
 Print Assumptions C11_valid_accepted.
 
 (** which arguments are "IPv4 CIDRs": exactly those whose mask is the 4-byte netmask of some
@@ -53,8 +71,9 @@ Print Assumptions C11_valid_argument_meaning.
 (** the refinement behind it: the abstraction [abs] of the concrete state (list mode and
     map mode) is the live set, after every history *)
 Theorem C11_refinement : forall ops,
-  match_all (run ops) = match_all_live ops /\ forall k, In k (abs (run ops)) <-> In k (live_set ops).
-Proof. exact refinement. Qed.
+  exists s, run ops = Some s /\ match_all s = match_all_live ops
+            /\ forall k, In k (abs s) <-> In k (live_set ops).
+Proof. exact refinement_p. Qed.
 Print Assumptions C11_refinement.
 
 (** what [covers] says in arithmetic: the probe and the network address agree on their
@@ -73,8 +92,8 @@ Print Assumptions C11_mask_table.
 (** the statement is not satisfied by everything: Contains as it was at the pinned commit
     (length test instead of To4) violates it — the witness is the replayable finding, now fixed *)
 Theorem C11_pinned_refuted :
-  exists ops ip, to4 ip <> None /\ contains_pinned (run ops) ip <> spec_contains ops ip
-                 /\ contains (run ops) ip = spec_contains ops ip.
+  exists ops ip s, run ops = Some s /\ spec_contains ops ip = true
+                   /\ contains_pinned s ip = Some false /\ contains s ip = Some true.
 Proof. exact pinned_refuted. Qed.
 Print Assumptions C11_pinned_refuted.
 
@@ -93,24 +112,39 @@ Definition long_history : list op :=
                      Add (mkCidr [10;0;0;0] [255;0;255;0]); Remove (mkCidr (v4mapped [10;0;7;0]) [255;255;255;0])].
 
 Example C11_example_crosses_switch :
-  let s := run long_history in
-  (mode_maps s, index s, length (live_set long_history), match_all_live long_history)
-  = (true, 256%nat, 297%nat, false)
-  /\ map (contains s) [[10;0;5;0]; [10;0;5;255]; [10;0;4;255]; [10;0;6;0]; [10;0;7;1];
-                       v4mapped [10;0;7;1]; [10;0;255;9]; [10;1;24;9]; [10;1;43;255]; [10;1;44;0];
-                       [0;0;0;0;0;0;0;0;0;0;0;0;10;0;7;1]; [10;0;7]]
-     = [true; true; true; false; true;
-        true; false; false; true; false;
-        false; false].
+  match run long_history with
+  | Some s =>
+    (mode_maps s, index s, length (live_set long_history), match_all_live long_history)
+    = (true, 256%nat, 297%nat, false)
+    /\ map (contains s) [[10;0;5;0]; [10;0;5;255]; [10;0;4;255]; [10;0;6;0]; [10;0;7;1];
+                         v4mapped [10;0;7;1]; [10;0;255;9]; [10;1;24;9]; [10;1;43;255]; [10;1;44;0];
+                         [0;0;0;0;0;0;0;0;0;0;0;0;10;0;7;1]; [10;0;7]; []]
+       = map Some [true; true; true; false; true;
+                   true; false; false; true; false;
+                   false; false; false]
+  | None => False
+  end.
 Proof. vm_compute. split; reflexivity. Qed.
 
 (** 256 copies of one range fill the list; Remove zeroes all of them; the next Add
     migrates 256 zeroed slots and the filter holds only the new range *)
 Example C11_example_all_zeroed :
   let h := map (fun _ => Add (nth_net 1)) (seq 0 256) ++ [Remove (nth_net 1); Add (nth_net 2)] in
-  (mode_maps (run h), live_set h, contains (run h) [10;0;1;1], contains (run h) [10;0;2;1])
-  = (true, [(167772672, 24)], false, true).
+  match run h with
+  | Some s => (mode_maps s, live_set h, contains s [10;0;1;1], contains s [10;0;2;1])
+              = (true, [(167772672, 24)], Some false, Some true)
+  | None => False
+  end.
 Proof. vm_compute. reflexivity. Qed.
+
+(** the panic outcomes of the model are real: on states no history reaches (a list-mode state whose
+    slot claims prefix length 40; a map-mode state whose maps were never made) Contains / Add do
+    panic — C11_no_panic says such states are unreachable, not that the model cannot panic *)
+Example C11_example_model_can_panic :
+  contains (mkSt false false 1 ((1, 40) :: repeat (0, 0) 255) (repeat None 32)) [10;0;0;1] = None
+  /\ add (mkSt false true 0 (repeat (0, 0) 256) (repeat None 32)) (net 10 0 0 0 8) = None
+  /\ add_locked init 5 0 = None /\ be32_p [1; 2] = None.
+Proof. vm_compute. repeat split; reflexivity. Qed.
 
 Example C11_example_invalid :
   map cidr_arg [mkCidr [10;0;0;0] [255;0;255;0]; mkCidr (v4mapped [10;0;7;0]) [255;255;255;0];
